@@ -210,3 +210,15 @@ class Pipeline:
                   "returns validator(visitor) when a validator was given, True otherwise", f"returns {rets}", PASS, proc)
         visits = [c for c in ast.walk(proc) if isinstance(c, ast.Call) and last_attr(c) == "Visit"]
         col.check(bool(visits), rule, f"{PASS}::MakePassFromVisitor.Process visits the root", "calls visitor.Visit(root)", None, PASS, proc)
+        # every run collects its diagnostics in a handler of its own (created in Process and handed to the visitor before the visit)
+        seth = [c for c in ast.walk(proc) if isinstance(c, ast.Call) and last_attr(c) == "SetErrorHandler" and c.args]
+        fresh_h = False
+        if seth:
+            a0 = seth[0].args[0]
+            src_ = a0
+            if isinstance(a0, ast.Name):
+                vals = [n.value for n in ast.walk(proc) if isinstance(n, ast.Assign) and isinstance(n.targets[0], ast.Name) and n.targets[0].id == a0.id]
+                src_ = vals[0] if len(vals) == 1 else None
+            fresh_h = isinstance(src_, ast.Call) and last_attr(src_) == "ErrorHandler" and (not visits or seth[0].lineno < visits[0].lineno)
+        col.check(fresh_h, rule, f"{PASS}::MakePassFromVisitor.Process uses a fresh error handler", "ErrorHandler() is created per Process call and installed before the visit",
+                  "the error handler is not created inside Process: diagnostics of an earlier run (with positions of an earlier text) are kept and printed again", PASS, proc)
